@@ -833,7 +833,7 @@ theorem func_case (cfg : CheckCfg) (m : Meta) (name : String) (args : List Node)
     cases hp : funcPlan fn isMethod args.length with
     | inl rule =>
       simp only []
-      obtain ⟨cf, bf, gf⟩ := finish rule m.loc st (fun r => setKd (.func m name args (fastCall fn isMethod)) r)
+      obtain ⟨cf, bf, gf⟩ := finish rule m.loc st (fun r => setKd (.func m name args (fastCall cfg.dt fn isMethod)) r)
       refine ⟨cf, bf, ?_⟩
       intro hg
       simp only [synth, hmt, hp]
